@@ -49,6 +49,15 @@
 //!   3. joint-state BFS with de-duplication over (engine state, replica state, strategy memory), full
 //!      alphabet, depth 4 / 6: every transition is the real `process_with_audit` plus the real replica
 //!      `run()` on the record after a gap, the record, the record again (R1, R2, F1 only, no runners);
+//!   4. system layer: every history of length <= 1 / 2 (full alphabet, every world) through the real
+//!      `SystemBuild::new(engine, feed mode, AuditMode::Enabled, ..).init()` — the code that takes the
+//!      snapshot, creates the audit channel and starts `sync_run_with_audit` (blocking thread) or
+//!      `async_run_with_audit` (task) in a real system — in both feed modes, the run ended by closing
+//!      the feed, by `System::shutdown()` and by `System::shutdown_after_backtest()`. The events go in
+//!      through the system's own `feed_tx` while the runner is live (one FIFO, so the input order is
+//!      the history; the sync runner meets an empty-but-open feed). The system's `SnapUpdates`
+//!      (snapshot + drained updates) is checked by S1-S4 against the stepped twin and a replica
+//!      built from it must end in the engine's final state (R1/R2 at the end of the stream).
 //!   self-tests: determinism (same history twice), negative control (a strategy that changes engine
 //!      state inside `on_disconnect` must be reported) — failing either is exit 2, not a verdict.
 
@@ -72,12 +81,17 @@ use barter::{
             trading::TradingState,
         },
     },
-    execution::AccountStreamEvent,
+    execution::{AccountStreamEvent, builder::ExecutionBuildFutures},
+    shutdown::Shutdown,
     strategy::{
         algo::AlgoStrategy,
         close_positions::{ClosePositionsStrategy, close_open_positions_with_market_orders},
         on_disconnect::OnDisconnectStrategy,
         on_trading_disabled::OnTradingDisabled,
+    },
+    system::{
+        System,
+        builder::{AuditMode, EngineFeedMode, SystemBuild},
     },
 };
 use barter_data::{
@@ -107,7 +121,7 @@ use barter_instrument::{
 };
 use barter_integration::{
     FeedEnded,
-    channel::{ChannelTxDroppable, mpsc_unbounded},
+    channel::{Channel, ChannelTxDroppable, Tx, mpsc_unbounded},
     collection::one_or_many::OneOrMany,
     snapshot::Snapshot,
 };
@@ -439,7 +453,7 @@ pub enum Sym {
     CancelResp { o: u8, ok: bool },
     /// own trade (fill): Buy at 100/t1 or Sell at 110/t2, quantity 1 or 2, fee 0.1
     Fill { inst: u8, sell: bool, qty: u8 },
-    /// full account snapshot of exchange 0: usdt 950 at t2; i0 orders [A Open t1], i1 orders []
+    /// full account snapshot of exchange 0: usdt 950 at t2; i0 orders [A Open t1 filled 1], i1 orders []
     AcctSnapshot,
     Trading(bool),
     /// Command::SendOpenRequests: 0 = A, 1 = B, 2 = [A, B]
@@ -615,7 +629,13 @@ impl World {
             Sym::OrdOpen { o, late } => {
                 let t = &self.tpl[o as usize];
                 let (time, filled) = if late { (2, dec!(1)) } else { (1, dec!(0)) };
-                let order = t.report(OrderState::active(Open { id: t.oid(), time_exchange: t_plus(time), filled_quantity: filled }));
+                let mut order = t.report(OrderState::active(Open { id: t.oid(), time_exchange: t_plus(time), filled_quantity: filled }));
+                // The early report of order A carries a price that differs from the requested one (a
+                // venue may confirm an order at other terms than requested - price improvement, rounding
+                // to the tick size): the statement quantifies over all account items.
+                if o == 0 && !late {
+                    order.price += dec!(1);
+                }
                 acct(o as usize, AccountEventKind::OrderSnapshot(Snapshot(order)))
             }
             Sym::OrdDone { o, how } => {
@@ -662,7 +682,9 @@ impl World {
                     instruments: vec![
                         InstrumentAccountSnapshot {
                             instrument: self.inst[0],
-                            orders: vec![a.report(OrderState::active(Open { id: a.oid(), time_exchange: t_plus(1), filled_quantity: dec!(0) }))],
+                            // same exchange time as `OrdOpen { o: 0, late: false }` but a different fill: the two
+                            // reports tie on time_exchange (equal timestamps, different content)
+                            orders: vec![a.report(OrderState::active(Open { id: a.oid(), time_exchange: t_plus(1), filled_quantity: dec!(1) }))],
                         },
                         InstrumentAccountSnapshot { instrument: self.inst[1], orders: vec![] },
                     ],
@@ -1034,6 +1056,18 @@ fn project(orders: &Orders) -> BTreeMap<String, Order<ExchangeIndex, InstrumentI
 }
 
 /// R1 + R2: (field signature fragment, detail) for every difference between engine and replica.
+/// Signature of an in-order replica divergence. A divergence that consists only of an order's static
+/// terms (price, quantity, ...) gets one signature whatever record follows: it has a single cause - the
+/// engine keeps the terms of its own request when the exchange confirms the order, the replica only ever
+/// sees the exchange's report.
+fn replica_sig(layer: &str, f: &str, after: &str) -> String {
+    if f == "orders/static-fields-differ" {
+        "C10/replica/orders/static-terms-differ-after-report-whose-terms-differ-from-the-request".to_string()
+    } else {
+        format!("C10/replica/{layer}/{f}/after={after}")
+    }
+}
+
 fn compare_states(engine: &EState, replica: &EState) -> Vec<(String, String)> {
     let mut d = Vec::new();
     if engine.trading != replica.trading {
@@ -1068,7 +1102,7 @@ fn compare_states(engine: &EState, replica: &EState) -> Vec<(String, String)> {
                         _ => "",
                     };
                     d.push((
-                        format!("orders/engine={le}/replica={lr}{what}"),
+                        if what == "/static-fields-differ" { "orders/static-fields-differ".to_string() } else { format!("orders/engine={le}/replica={lr}{what}") },
                         format!("{name} order {cid}: engine {:?} replica {:?}", e.orders.0.get(&c).map(|o| &o.state), r.orders.0.get(&c).map(|o| &o.state)),
                     ));
                     break;
@@ -1106,6 +1140,7 @@ struct Counters {
     end_shutdown: u64,
     end_fatal: u64,
     algo_orders: u64,
+    system_runs: u64,
     /// nanoseconds per phase (twin, sync, async, bookkeeping+hash, replica, faults); only printed with C10_PROFILE=1
     ns: [u64; 6],
 }
@@ -1242,7 +1277,7 @@ fn check_history(w: &World, hist: &[Sym], sched: SchedMode, faults: FaultMode, c
         let diffs = compare_states(&states[i + 1], mgr.replica_engine_state());
         if !diffs.is_empty() {
             for (f, d) in diffs {
-                res.push((format!("C10/replica/in-order/{f}/after={after}"), format!("after record #{}: {d}", i + 1), json!({"layer": "replica"})));
+                res.push((replica_sig("in-order", &f, &after.to_string()), format!("after record #{}: {d}", i + 1), json!({"layer": "replica"})));
             }
             in_order_ok = false;
             break;
@@ -1403,6 +1438,7 @@ fn add(a: &mut Counters, b: &Counters) {
     a.end_shutdown += b.end_shutdown;
     a.end_fatal += b.end_fatal;
     a.algo_orders += b.algo_orders;
+    a.system_runs += b.system_runs;
     for i in 0..a.ns.len() {
         a.ns[i] += b.ns[i];
     }
@@ -1514,6 +1550,188 @@ fn dfs_skip(sh: &Shared, widx: usize, w: &World, base: &[Sym], hist: &mut Vec<Sy
 }
 
 // ------------------------------------------------------------------------------------------------
+// System layer: the same histories through the real `SystemBuild::init` (the code that takes the
+// snapshot, creates the audit channel and starts the runner in a real system)
+// ------------------------------------------------------------------------------------------------
+
+/// How the run is brought to its end.
+#[derive(Debug, Clone, Copy, PartialEq, Eq, Serialize, Deserialize)]
+pub enum SysEnd {
+    /// every feed transmitter is dropped (=> feed-ended record)
+    FeedClosed,
+    /// the real `System::shutdown()` (sends `Shutdown`)
+    Shutdown,
+    /// the real `System::shutdown_after_backtest()` (market stream drained, then `Shutdown`)
+    ShutdownAfterBacktest,
+}
+
+thread_local! {
+    // Real-time current-thread runtime (the Iterator feed mode needs `spawn_blocking`). The clock is
+    // only used as a hang guard (exit 2), never for a verdict.
+    static SYS_RT: tokio::runtime::Runtime = tokio::runtime::Builder::new_current_thread().enable_time().build().expect("tokio runtime");
+}
+
+fn feed_mode_name(m: &EngineFeedMode) -> &'static str {
+    match m {
+        EngineFeedMode::Iterator => "system-iterator",
+        EngineFeedMode::Stream => "system-stream",
+    }
+}
+
+/// One history through `SystemBuild::new(engine, ..).init()` with auditing enabled: the events are sent
+/// on the system's own `feed_tx` (one FIFO => the engine's input order is the history), the run is
+/// ended as `end` says, the engine is joined and the audit `SnapUpdates` drained.
+/// `Err(text)` = the engine task did not return an engine (it panicked).
+fn run_system(w: &World, events: &[Event], mode: EngineFeedMode, end: SysEnd) -> Result<RunObs, String> {
+    type Mkt = MarketStreamEvent<InstrumentIndex, DataKind>;
+    SYS_RT.with(|rt| {
+        rt.block_on(async {
+            let engine = w.engine();
+            let state_before = engine.state.clone();
+            let build: SystemBuild<Eng, Event, futures::stream::Empty<Mkt>> = SystemBuild::new(
+                engine,
+                mode,
+                AuditMode::Enabled,
+                futures::stream::empty::<Mkt>(),
+                Channel::new(),
+                ExecutionBuildFutures { mock_exchange_run_futures: vec![], execution_init_futures: vec![] },
+            );
+            let mut system: System<Eng, Event> = match build.init().await {
+                Ok(s) => s,
+                Err(e) => {
+                    eprintln!("MACHINERY: C10 system layer: SystemBuild::init failed without execution components: {e:?}");
+                    std::process::exit(2);
+                }
+            };
+            let Some(audit) = system.take_audit() else {
+                return Err("AuditMode::Enabled but the system has no audit snapshot + updates".to_string());
+            };
+            for ev in events {
+                // a send fails only if the runner has already ended (history with Shutdown / fatal error)
+                let _ = Tx::send(&system.feed_tx, ev.clone());
+            }
+            let joined = async {
+                match end {
+                    SysEnd::FeedClosed => {
+                        let System { engine, handles, feed_tx, audit: _ } = system;
+                        drop(feed_tx);
+                        let r = engine.await;
+                        handles.abort();
+                        r.map_err(|e| format!("{e:?}"))
+                    }
+                    SysEnd::Shutdown => system.shutdown().await.map_err(|e| format!("{e:?}")),
+                    SysEnd::ShutdownAfterBacktest => system.shutdown_after_backtest().await.map_err(|e| format!("{e:?}")),
+                }
+            };
+            let (engine, _ret) = match tokio::time::timeout(std::time::Duration::from_secs(600), joined).await {
+                Ok(r) => r?,
+                Err(_) => {
+                    eprintln!("MACHINERY: C10 system layer: engine task not finished 600 s after the feed was closed");
+                    std::process::exit(2);
+                }
+            };
+            let mut rx = audit.updates;
+            let ticks = drain(&mut rx);
+            Ok(RunObs { snapshot: audit.snapshot, state_before, ticks, final_state: engine.state.clone(), completed: true })
+        })
+    })
+}
+
+/// System layer for one history: every feed mode x every admissible ending; S1-S4 (tie to the twin) plus
+/// R1/R2 at the end of the stream for a replica built from the system's own snapshot + updates.
+fn check_system(w: &World, hist: &[Sym], c: &mut Counters) -> Vec<(String, String, Value)> {
+    let mut res = Vec::new();
+    let events: Vec<Event> = hist.iter().map(|s| w.event(s)).collect();
+    let Ok(plain) = guarded(|| run_twin(w, &events)) else {
+        return res; // reported by the history layers
+    };
+    // `System::shutdown*` insist on a live engine: only used when the history itself does not end the run
+    let open_ended = matches!(plain.ticks.last().map(|t| &t.event), Some(EngineAudit::FeedEnded));
+    let mut with_shutdown = events.clone();
+    with_shutdown.push(Event::from(Shutdown));
+    let twin_shutdown = if open_ended { guarded(|| run_twin(w, &with_shutdown)).ok() } else { None };
+    let mut hist_shutdown = hist.to_vec();
+    hist_shutdown.push(Sym::Shutdown);
+    for mode in [EngineFeedMode::Iterator, EngineFeedMode::Stream] {
+        let name = feed_mode_name(&mode);
+        for end in [SysEnd::FeedClosed, SysEnd::Shutdown, SysEnd::ShutdownAfterBacktest] {
+            if end != SysEnd::FeedClosed && twin_shutdown.is_none() {
+                continue;
+            }
+            let wh = json!({"layer": "system", "mode": name, "end": end});
+            c.system_runs += 1;
+            let obs = match guarded(|| run_system(w, &events, mode.clone(), end)) {
+                Ok(Ok(o)) => o,
+                Ok(Err(e)) => {
+                    res.push((format!("C10/stream/{name}/engine-task-failed"), format!("the system did not hand back its engine / audit stream: {e}"), wh));
+                    continue;
+                }
+                Err(()) => {
+                    res.push((format!("C10/stream/{name}/system-panicked"), "SystemBuild::init / System::shutdown panicked".into(), wh));
+                    continue;
+                }
+            };
+            c.records_checked += obs.ticks.len() as u64;
+            // The statement does not say HOW `System::shutdown*` end the run: a Shutdown event (=> shutdown
+            // record) and closing the feed (=> feed-ended record) are both accepted; the observed final
+            // record decides which input history the stream is compared with.
+            let sent_shutdown = matches!(obs.ticks.last().map(|t| &t.event), Some(EngineAudit::Process(p)) if matches!(p.event, EngineEvent::Shutdown(_)));
+            let (twin, fed, fed_hist) = match &twin_shutdown {
+                Some(t) if end != SysEnd::FeedClosed && sent_shutdown => (t, &with_shutdown, &hist_shutdown[..]),
+                _ => (&plain, &events, hist),
+            };
+            let mut v = Vec::new();
+            let ok = check_stream(name, &obs, fed, fed_hist, twin, &mut v);
+            for (s, d) in v.drain(..) {
+                res.push((s, d, wh.clone()));
+            }
+            if !ok {
+                continue;
+            }
+            // the replica a user builds from `System::take_audit()`
+            let mut mgr: Replica = StateReplicaManager::new(obs.snapshot.clone(), obs.ticks.clone().into_iter());
+            c.replica_steps += obs.ticks.len() as u64;
+            match guarded(|| mgr.run::<u32, ExchangeId>()) {
+                Ok(Ok(())) => {
+                    if let Some((f, d)) = compare_states(&obs.final_state, mgr.replica_engine_state()).into_iter().next() {
+                        res.push((if f == "orders/static-fields-differ" { replica_sig("", &f, "") } else { format!("C10/replica/{name}/whole-stream-run-differs-from-engine/{f}") }, d, wh));
+                    }
+                }
+                Ok(Err(e)) => res.push((format!("C10/replica/{name}/in-order-stream-rejected"), format!("snapshot + updates of the system rejected: {e}"), wh)),
+                Err(()) => res.push((format!("C10/replica/{name}/panicked"), "run() panicked".into(), wh)),
+            }
+        }
+    }
+    res
+}
+
+/// All histories of length <= max_len over `base` in world `widx` through the system layer.
+fn explore_system(sh: &Shared, widx: usize, w: &World, base: &[Sym], max_len: usize) {
+    let mut hists: Vec<Vec<Sym>> = vec![vec![]];
+    let mut level: Vec<Vec<Sym>> = vec![vec![]];
+    for _ in 0..max_len {
+        let mut next = Vec::new();
+        for h in &level {
+            for s in alphabet(w, base, h) {
+                let mut n = h.clone();
+                n.push(s);
+                next.push(n);
+            }
+        }
+        hists.extend(next.iter().cloned());
+        level = next;
+    }
+    hists.into_par_iter().for_each(|h| {
+        let mut c = Counters::default();
+        let viols = check_system(w, &h, &mut c);
+        if !viols.is_empty() {
+            report(sh, widx, w, &h, viols);
+        }
+        add(&mut sh.counters.lock().unwrap(), &c);
+    });
+}
+
+// ------------------------------------------------------------------------------------------------
 // Secondary layer: joint-state BFS (engine state x replica state) with state de-duplication
 // ------------------------------------------------------------------------------------------------
 
@@ -1593,7 +1811,7 @@ fn joint_step(w: &World, j: &Joint, sym: &Sym, out: &mut Vec<Viol>) -> Option<Jo
     let diffs = compare_states(&e.state, m.replica_engine_state());
     let diverged = !diffs.is_empty();
     for (f, d) in diffs {
-        out.push((format!("C10/replica/in-order/{f}/after={after}"), d));
+        out.push((replica_sig("in-order", &f, &after.to_string()), d));
     }
     // F1: the same record again (the successor state is the one before this delivery)
     let before = m.replica_engine_state().clone();
@@ -1831,6 +2049,11 @@ pub fn run(ctx: &Ctx) -> Outcome {
         }
         sh.samples.offer(|| json!({"world": i, "world_name": w.spec.name, "hist": h}));
     }
+    // system layer: short histories through the real SystemBuild::init (both feed modes, three endings)
+    let system_len = ctx.tier.pick(1, 2);
+    for (i, w) in ws.iter().enumerate() {
+        explore_system(&sh, i, w, &full, system_len);
+    }
     // secondary layer: deeper, with state de-duplication, engine x replica only (no runners)
     let bfs_depth = ctx.tier.pick(4, 6);
     let bfs_cap = ctx.tier.pick(200_000, 2_000_000);
@@ -1858,6 +2081,7 @@ pub fn run(ctx: &Ctx) -> Outcome {
                 "full_alphabet_symbols": full.len(), "full_alphabet_max_len": full_len,
                 "core_alphabet_symbols": core.len(), "core_alphabet_max_len": core_len,
                 "all_async_schedules_up_to_len": all_sched_upto, "worlds": ws.len(),
+                "system_layer_max_len": system_len,
             },
             "per_world": per_world,
             "joint_state_bfs": {
@@ -1868,6 +2092,8 @@ pub fn run(ctx: &Ctx) -> Outcome {
             "joint_bfs_transitions": bfs_transitions,
             "sync_runs": c.sync_runs,
             "async_runs": c.async_runs,
+            "system_runs": c.system_runs,
+            "system_layer": "every history of length <= system_layer_max_len (full alphabet, every world) through the real SystemBuild::new(engine, feed mode, AuditMode::Enabled, ..).init() in both feed modes, ended by closing the feed, System::shutdown() and System::shutdown_after_backtest(); the system's snapshot + updates checked by S1-S4 against the stepped engine and by a replica run() over the whole stream",
             "records_checked": c.records_checked,
             "replica_steps_in_order": c.replica_steps,
             "fault_streams": c.fault_streams,
@@ -1892,6 +2118,7 @@ pub fn run(ctx: &Ctx) -> Outcome {
             "strategies: one that never issues orders and one deterministic state-driven strategy issuing/cancelling two orders; on_disconnect/on_trading_disabled hooks do not mutate engine state (the negative control does and is reported)".into(),
             "2 exchanges, 3 instruments, 2 order templates; histories bounded as stated under bounds".into(),
             "after a Shutdown event only one further feed event is appended (it must stay unprocessed)".into(),
+            "system layer: the system is built with SystemBuild::new around the scripted engine, without execution components (empty ExecutionBuildFutures), an empty market stream and an unused account channel; every event enters through System::feed_tx; System::shutdown*() may end the run with a shutdown or a feed-ended record (both accepted)".into(),
         ],
     }
 }
@@ -1914,7 +2141,9 @@ pub fn replay(ctx: &Ctx, case: &Value) {
         "replay: {} sync run, {} async runs, {} records, {} replica steps, {} fault streams -> {} violation(s)",
         c.sync_runs, c.async_runs, c.records_checked, c.replica_steps, c.fault_streams, viols.len()
     );
-    for (sig, detail, extra) in viols {
+    let sys = check_system(&w, &hist, &mut c);
+    println!("replay: {} system runs -> {} violation(s)", c.system_runs, sys.len());
+    for (sig, detail, extra) in viols.into_iter().chain(sys) {
         println!("    {sig}: {detail}");
         ctx.violate(sig, detail, case_of(widx, &w, &hist, &extra));
     }
